@@ -38,7 +38,7 @@ def states_of(sc, obs):
             amt, st = sx.q(o[0]), [sx.bnd(b) for b in o[1]]
         elif t in (3, 4, 5):
             amt, st = sx.q(o[1]), [sx.bnd(b) for b in o[2]]
-        elif t == 7:
+        elif t in (7, 8):
             amt, st = None, [sx.bnd(b) for b in o[0]]
         else:
             amt, st = None, cur
@@ -62,7 +62,7 @@ def mon_c01(sc, obs):
     for n, (op, amt, before, after, raw) in enumerate(states_of(sc, obs)):
         if after is None:
             return (f"op #{n} {op} completes on consistent data", f"raised error class {raw[1]}", None)
-        if op[0] == 7:
+        if op[0] in (7, 8):
             continue
         for i, (l, u) in enumerate(after):
             # float32 rounding is not modelled: outside the exact dyadic domain allow a few ulps
@@ -80,7 +80,7 @@ def mon_c05(sc, obs):
     if whole_error(obs):
         return None
     for n, (op, amt, before, after, raw) in enumerate(states_of(sc, obs)):
-        if after is None or op[0] == 7:
+        if after is None or op[0] in (7, 8):
             continue
         for i, ((l0, u0), (l1, u1)) in enumerate(zip(before, after)):
             if l1 < l0 or u1 > u0:
@@ -405,10 +405,20 @@ def gen_c20(ctx, n):
         data, hidden = gen_prop.gen_data(rng, kb, "consistent")
         nonleaf = [i for i, o in enumerate(kb) if o[0] != 0]
         ops = []
+        if rng.random() < 0.5:   # a full-model pass first (anything cached by it must not leak into restricted runs)
+            ops.append(rng.choice([[5, -1, 1], [5, -1, 30], [3, -1], [4, -1]]))
         for _k in range(rng.choice([1, 2, 3])):
-            src = rng.choice(nonleaf)
+            src = rng.choice(nonleaf) if rng.random() < 0.5 else rng.choice(roots)
+            if rng.random() < 0.3:
+                src = roots[0]   # the first formula added to the model
             t = rng.choice([5, 5, 3, 4])
             ops.append([5, src, rng.choice([1, 2, 30])] if t == 5 else [t, src])
+            if rng.random() < 0.25:
+                ops.append(rng.choice([[5, -1, 1], [3, -1], [4, -1]]))
+            if rng.random() < 0.3 and hidden:   # a data update between calls (consistent with the hidden interpretation)
+                j = rng.randrange(len(kb))
+                if hidden[j] in gen_prop.G8 and not gen_prop.owned(kb, j):
+                    ops.append([8, j, [hidden[j], hidden[j]]])
         # query part: a query without own data, early exit, then node-level convergence
         cands = [i for i in nonleaf if not any(d[0] == i for d in data) and not gen_prop.owned(kb, i)]
         nq = 0
